@@ -52,7 +52,7 @@ CHECK_DEADLOCK FALSE
 """
 NIDS = 24
 WORKER = os.path.join(core.VERIF, "harness", "life_ltworker.py")
-VARIANTS = [("nofieldclear", "1,2", '"P","W","A","T"'), ("gcnonenoop", "1,2", '"P","W"'),
+VARIANTS = [("clear-after-call", "1,2", '"P","W"'), ("nofieldclear", "1,2", '"P","W","A","T"'), ("gcnonenoop", "1,2", '"P","W"'),
             ("structnoref", "1,2", '"S","W"'), ("doublerelease", "1,2,3", '"E","V"')]
 
 CLAUSE = {
@@ -82,7 +82,7 @@ def ops_from_path(path, rng):
             k = a[0] if act == "New" else act[3]
             t = a[0] if act in ("NewW", "NewV") else 0
             sc = bool(a[1]) if act == "NewW" else bool(a[0]) if act == "NewH" else False
-            ops.append(["new", n, k, t, sc])
+            ops.append(["new", n, k, t, sc, a[2] if act == "NewW" else 0])
             names.add(n)
             kinds[n] = k
         elif act == "Alias":
@@ -140,7 +140,11 @@ def random_history(rng, steps, maxobj):
                     k = "E"
             n += 1
             t = rng.choice(cand) if k in ("W", "V") else 0
-            ops.append(["new", n, k, t, k in ("W", "H") and rng.random() < 0.3])
+            rl = 0
+            if k == "W" and rng.random() < 0.35:     # the destructor releases itself / a sibling / the next one
+                ws = [o for o in kinds if kinds[o] == "W"]
+                rl = rng.choice([n, n, min(n + 1, maxobj)] + ws)
+            ops.append(["new", n, k, t, k in ("W", "H") and rng.random() < 0.3, rl])
             kinds[n] = k
             names.add(n)
         elif not named and not aliases:
@@ -285,6 +289,8 @@ def design_level(ctx, quick):
     jobs = {"mc2": (mc, ("MC_Lifetime(2 entities, all kinds)", "1,2", ALLK, dump, 4)),
             "mc3b": (mc, ("MC_Lifetime(3 entities, kinds E V W)", "1,2,3", '"E","V","W"', None, 2))}
     if not quick:
+        jobs["mc3w"] = (mc, ("MC_Lifetime(3 entities, kinds P W: sibling destructors releasing each other)", "1,2,3",
+                             '"P","W"', None, 4))
         jobs["mc3"] = (mc, ("MC_Lifetime(3 entities, all kinds)", "1,2,3", ALLK, None, 6))
     for v, ids, kinds in VARIANTS:
         jobs[v] = (variant, (v, ids, kinds))
